@@ -3,6 +3,7 @@ package core
 import (
 	"fmt"
 	"go/token"
+	"go/types"
 	"strings"
 
 	"golang.org/x/tools/go/ssa"
@@ -486,6 +487,16 @@ func GuardedBy(x ssa.Instruction, pred func(cond ssa.Value) CondMatch) (*ssa.If,
 			return
 		}
 		cond, neg := StripNot(i.Cond)
+		// a test delegated to a helper analysed as part of this function (`if !m.expired(now)`) is the helper's returned condition
+		if r := Resolve(cond); r != cond {
+			if _, isBool := r.Type().Underlying().(*types.Basic); isBool {
+				c2, n2 := StripNot(r)
+				cond = c2
+				if n2 {
+					neg = !neg
+				}
+			}
+		}
 		m := pred(cond)
 		if !m.Match {
 			return
